@@ -35,6 +35,24 @@ impl<A: AcceptableMasterList, C: Clock, F: Filter, R: Rng, S: PtpInstanceStateMu
                     .with_ref(|s| s.parent_ds.parent_port_identity)
         {
             let clock_loop_detected = self.instance_state.with_mut(|state| {
+                // Find the path trace TLV first: an announce whose path already contains
+                // our own identity is discarded without touching any data set.
+                let path_trace_tlv = if state.path_trace_ds.enable {
+                    message
+                        .suffix
+                        .tlv()
+                        .find(|tlv| tlv.tlv_type == TlvType::PathTrace)
+                } else {
+                    None
+                };
+                if let Some(tlv) = &path_trace_tlv {
+                    let clock_identity = state.default_ds.clock_identity;
+                    if tlv.value.chunks_exact(8).any(|ci| ci == clock_identity.0) {
+                        log::warn!("Clock loop detected");
+                        return true;
+                    }
+                }
+
                 let current_ds = &mut state.current_ds;
                 let parent_ds = &mut state.parent_ds;
                 let time_properties_ds = &mut state.time_properties_ds;
@@ -50,25 +68,13 @@ impl<A: AcceptableMasterList, C: Clock, F: Filter, R: Rng, S: PtpInstanceStateMu
 
                 *time_properties_ds = announce.time_properties();
 
-                if path_trace_ds.enable {
-                    if let Some(tlv) = message
-                        .suffix
-                        .tlv()
-                        .find(|tlv| tlv.tlv_type == TlvType::PathTrace)
-                    {
-                        let clock_identity = state.default_ds.clock_identity;
-                        if tlv.value.chunks_exact(8).any(|ci| ci == clock_identity.0) {
-                            log::warn!("Clock loop detected");
-                            return true;
-                        }
-
-                        // Cannot panic as `list` is large enough to contain up to a whole message
-                        path_trace_ds.list = tlv
-                            .value
-                            .chunks_exact(8)
-                            .map(|ci| ClockIdentity(<[u8; 8]>::try_from(ci).unwrap()))
-                            .collect();
-                    }
+                if let Some(tlv) = path_trace_tlv {
+                    // Cannot panic as `list` is large enough to contain up to a whole message
+                    path_trace_ds.list = tlv
+                        .value
+                        .chunks_exact(8)
+                        .map(|ci| ClockIdentity(<[u8; 8]>::try_from(ci).unwrap()))
+                        .collect();
                 }
 
                 false
